@@ -245,4 +245,36 @@ HasUndefRange(e, env, loc) ==
     [] e.t \in {"and", "or"} -> H(e.l) \/ H(e.r)
     [] e.t \in {"not", "defined", "paren"} -> H(e.x)
     [] OTHER -> FALSE
+\* ---------------------------------------------------------------- static checks of the compiler (grammar.y, rule `range`)
+\* compile-time value of an integer expression: literals, parentheses, unary and binary operators over constants are
+\* folded (Fold.tla); everything else (filesize, externals, string counts / offsets, function calls, loop variables) is
+\* not a constant for the compiler.  U stands for "not a constant".
+RECURSIVE CTV(_)
+CTV(e) ==
+  CASE e.t = "int" -> I(e.v)
+    [] e.t = "paren" -> CTV(e.x)
+    [] e.t = "neg" -> LET x == CTV(e.x) IN IF IsU(x) \/ x.ty # "i" THEN U ELSE I(0 - x.v)
+    [] e.t = "bnot" -> LET x == CTV(e.x) IN IF IsU(x) \/ x.ty # "i" THEN U ELSE I(BNot(x.v))
+    [] e.t = "bin" -> LET l == CTV(e.l) r == CTV(e.r) IN IF IsU(l) \/ IsU(r) \/ l.ty # "i" \/ r.ty # "i" THEN U ELSE Arith(e.op, l, r)
+    [] OTHER -> U
+\* a range (lo..hi) is rejected at compile time exactly when both bounds are constants and lo > hi or lo < 0;
+\* (n..n) is a valid range: ranges are inclusive
+RangeRejected(lo, hi) == LET l == CTV(lo) h == CTV(hi) IN ~IsU(l) /\ ~IsU(h) /\ (l.v > h.v \/ l.v < 0)
+RECURSIVE StaticRangeReject(_)
+StaticRangeReject(e) ==
+  LET H(x) == StaticRangeReject(x) IN
+  CASE e.t \in {"sin", "scountin"} -> RangeRejected(e.lo, e.hi) \/ H(e.lo) \/ H(e.hi)
+    [] e.t = "ofin" -> RangeRejected(e.lo, e.hi) \/ H(e.lo) \/ H(e.hi) \/ (e.q \in {"n", "pct"} /\ H(e.qv))
+    [] e.t \in {"of", "ofrules"} -> e.q \in {"n", "pct"} /\ H(e.qv)
+    [] e.t = "ofat" -> H(e.x) \/ (e.q \in {"n", "pct"} /\ H(e.qv))
+    [] e.t = "forof" -> H(e.body) \/ (e.q \in {"n", "pct"} /\ H(e.qv))
+    [] e.t = "forin" -> \/ H(e.body) \/ (e.q \in {"n", "pct"} /\ H(e.qv))
+                        \/ (e.it = "range" /\ (RangeRejected(e.lo, e.hi) \/ H(e.lo) \/ H(e.hi)))
+                        \/ (e.it = "enum" /\ \E k \in 1..Len(e.vals) : H(e.vals[k]))
+    [] e.t \in {"and", "or", "cmp", "bin", "strop"} -> H(e.l) \/ H(e.r)
+    [] e.t \in {"not", "defined", "paren", "neg", "bnot", "sat", "uint"} -> H(e.x)
+    [] e.t \in {"soff", "slen"} -> H(e.i)
+    [] OTHER -> FALSE
+\* record of kind "static": the compiler's decision on a generated condition as far as ranges are concerned
+StaticOK(c) == c.rejected = StaticRangeReject(c.ast)
 =============================================================================
